@@ -1179,6 +1179,12 @@ def evaluate(t, env, cache=None):
         if x.id in cache:
             stack.pop()
             continue
+        if x.op.startswith('fp'):
+            # floating-point sub-terms (engine.fpterms): evaluated there (comparisons give 0/1, values give floats)
+            from . import fpterms
+            stack.pop()
+            cache[x.id] = fpterms.eval_bool(x, env) if x.op.startswith('fpcmp.') else fpterms.evaluate(x, env)
+            continue
         pend = [a for a in x.args if isinstance(a, Term) and a.id not in cache]
         if pend:
             stack.extend(pend)
